@@ -6,6 +6,10 @@ python3 - "$h" <<'P'
 import sys, importlib.machinery, importlib.util, os
 loader = importlib.machinery.SourceFileLoader("chk", "/verif/check")
 spec = importlib.util.spec_from_loader("chk", loader); m = importlib.util.module_from_spec(spec); loader.exec_module(m)
+st = m.stage()
+m.ensure_lock()
+ok, secs, out = m.build_base("scenarios::" + sys.argv[1])
+print("base build ok=%s %.0fs" % (ok, secs))
 m.clone_target("/verif/.build/dev/t-" + sys.argv[1])
 P
 flags="--no-memory-safety-checks --no-undefined-function-checks"
